@@ -282,6 +282,10 @@ class TreeWorld:
         self.stats.ratio(inv, err, tol * sc)
         if not err <= tol * sc:
             raise V(props, inv, f"{what} {handle} ({e.kind} on tree {e.tid}): |got-ref|={err:.3e} scale={sc:.3e}", handle=handle)
+        if handle in self.created or handle in self.changed:
+            # the reference of an operation is accurate relative to the OPERAND scale; from now on the bystander monitor compares
+            # the object with what it actually represented when it was last (documentedly) written
+            e.shadow = got
 
     def check_sector(self, handle):
         e = self.h[handle]
@@ -1167,10 +1171,20 @@ def op_dump_load(w, s):
         return "skipped"
     e = w.h[s["a"]]
     path = os.path.join(w.scratch, f"tt_{w.step_no}.npz")
-    e.obj.dump(path)
+    from simlab.seams.fs import SimFS
+    from simlab.chain_io import _arm, _account
+    fs = SimFS(w.scratch)
+    _arm(fs, s.get("faults"))
+    with fs:
+        e.obj.dump(path)     # the library logs and swallows a failing dump
+    fired = _account(w, fs)
+    w.xdigest.add("dump", [(k, kind, n) for (k, kind, rel, n) in fs.log])
     try:
         res = TTNS.load(e.obj.basis, path)
     except Exception as ex:
+        if fired:
+            w.stats.probes["load_refused_after_faulty_dump"] += 1
+            return "done"
         raise V({"C14"}, "C14.tree.load_raised", f"TTNS.load after dump: {type(ex).__name__}: {ex}", sig=f"C14.tree.load_raised:{type(ex).__name__}")
     for n1, n2 in zip(e.obj.node_list, res.node_list):
         if not np.array_equal(np.asarray(n1.tensor), np.asarray(n2.tensor)) or not np.array_equal(np.asarray(n1.qn), np.asarray(n2.qn)):
@@ -1179,13 +1193,32 @@ def op_dump_load(w, s):
         raise V({"C14"}, "C14.tree.roundtrip", f"TTNS dump/load changed the prefactor {e.obj.coeff!r} -> {res.coeff!r}")
     w.put(s["out"], "ttns", res, e.shadow.copy(), e.tid)
     w.check_value(s["out"], {"C14"}, "C14.tree.roundtrip.value")
-    # later operations must work on the reloaded object
+    # every later operation gives identical results on the reloaded object
+    if not nonzero(e):
+        return "done"
+
+    def cont(obj):
+        o = obj.copy()
+        o.canonicalise()
+        if len(o.node_list) > 1:
+            o.compress(temp_m_trunc=max(1, max(o.bond_dims) // 2))
+        o2 = obj.copy().scale(0.5)
+        out = [np.asarray(n.tensor) for n in o.node_list] + [np.asarray(complex(o.coeff)), np.asarray(obj.norm)] + [np.asarray(n.tensor) for n in (o2 + obj).node_list]
+        return out
+    np.random.seed(s.get("rngseed", 0) % (2 ** 32))
     try:
-        res.copy().canonicalise()
-        if isinstance(res.coeff, np.ndarray):
-            res.scale(1.0)
+        r1 = cont(e.obj)
+    except Exception:
+        return "done"
+    np.random.seed(s.get("rngseed", 0) % (2 ** 32))
+    try:
+        r2 = cont(res)
     except Exception as ex:
-        raise V({"C14"}, "C14.tree.reloaded_unusable", f"operation on a reloaded TTNS failed: {type(ex).__name__}: {ex}", sig=f"C14.tree.reloaded_unusable:{type(ex).__name__}")
+        raise V({"C14"}, "C14.tree.reloaded_unusable", f"operations that work on the original fail on the reloaded TTNS: {type(ex).__name__}: {ex}", sig=f"C14.tree.reloaded_unusable:{type(ex).__name__}")
+    for x, y in zip(r1, r2):
+        if x.shape != y.shape or not np.array_equal(x, y):
+            raise V({"C14"}, "C14.tree.continuation_differs", "canonicalise/compress/scale/add on the reloaded TTNS differ from the same operations on the original", sig="C14.tree.continuation_differs")
+    w.stats.probes["roundtrip_continuation:tree"] += 1
     return "done"
 
 
@@ -1456,7 +1489,10 @@ def p_lockstep(w, rnd):
 @prop("dump_load")
 def p_dump_load(w, rnd):
     hs = w.handles("ttns")
-    return {"op": "dump_load", "a": rnd.choice(hs), "out": w.new_handle()} if hs and w.scratch else None
+    if not hs or not w.scratch:
+        return None
+    from simlab.chain_io import _gen_faults
+    return {"op": "dump_load", "a": rnd.choice(hs), "out": w.new_handle(), "faults": _gen_faults(rnd, ["open_w", "write"])}
 
 
 @prop("drop")
